@@ -222,7 +222,10 @@ def file_flags_to_mode(flags):
     Used by Process.open_files().
     """
     modes_map = {os.O_RDONLY: 'r', os.O_WRONLY: 'w', os.O_RDWR: 'w+'}
-    mode = modes_map[flags & (os.O_RDONLY | os.O_WRONLY | os.O_RDWR)]
+    # Access mode 3 is Linux specific (the fd can only be used for
+    # ioctl(), see "man 2 open"): treat it as read-write instead of
+    # crashing with KeyError.
+    mode = modes_map.get(flags & os.O_ACCMODE, 'w+')
     if flags & os.O_APPEND:
         mode = mode.replace('w', 'a', 1)
     mode = mode.replace('w+', 'r+')
